@@ -95,6 +95,22 @@ static int runu2(int argc, tok_t *a, out_t *o, fu2_t f) {
 }
 #define OPU2(fn) static int op_##fn(int argc, tok_t *a, out_t *o) { return runu2(argc, a, o, mpz_##fn); }
 OPU2(tdiv_qr_ui) OPU2(fdiv_qr_ui) OPU2(cdiv_qr_ui)
+/* alias_divexact_ui <dst> <src> <d> v0..v3 (inside the documented domain: d != 0, d | src); no return value */
+static int op_divexact_ui(int argc, tok_t *a, out_t *o) {
+  if (argc != 7) return -1;
+  for (int i = 0; i < 7; i++) if (a[i].kind != T_NUM) return -1;
+  long w = tok_long(&a[0]), u = tok_long(&a[1]);
+  if (w < 0 || w > 3 || u < 0 || u > 3 || a[2].neg || a[2].n != 1) return -1;
+  unsigned long d = tok_ulong(&a[2]);
+  mpz_t v[4]; mp_limb_t *p0[4];
+  for (int i = 0; i < 4; i++) { mpz_init(v[i]); tok_mpz(v[i], &a[3 + i]); p0[i] = v[i]->_mp_d; }
+  mpz_divexact_ui(v[w], v[u], d);
+  for (int i = 0; i < 4; i++) {
+    out_mpz(o, v[i]); out_long(o, v[i]->_mp_alloc); out_long(o, v[i]->_mp_d != p0[i]);
+  }
+  for (int i = 0; i < 4; i++) mpz_clear(v[i]);
+  return 0;
+}
 #define OP4(fn) static int op_##fn(int argc, tok_t *a, out_t *o) { return run(argc, a, o, 0, mpz_##fn); }
 #define OP3(fn) static int op_##fn(int argc, tok_t *a, out_t *o) { return run(argc, a, o, mpz_##fn, 0); }
 OP4(tdiv_qr) OP4(fdiv_qr) OP4(cdiv_qr)
@@ -139,6 +155,7 @@ const opdef_t ops_alias[] = {
   {"alias_gcd", op_gcd}, {"alias_and", op_and}, {"alias_ior", op_ior}, {"alias_xor", op_xor}, {"alias_com", op_com}, {"alias_neg", op_neg}, {"alias_abs", op_abs}, {"alias_set", op_set},   /* alias_com w u _ _ … */
   {"alias_tdiv_r_ui", op_tdiv_r_ui}, {"alias_fdiv_r_ui", op_fdiv_r_ui}, {"alias_cdiv_r_ui", op_cdiv_r_ui},
   {"alias_tdiv_qr_ui", op_tdiv_qr_ui}, {"alias_fdiv_qr_ui", op_fdiv_qr_ui}, {"alias_cdiv_qr_ui", op_cdiv_qr_ui},
+  {"alias_divexact_ui", op_divexact_ui},
   {"alias_tdiv_q_ui", op_tdiv_q_ui}, {"alias_fdiv_q_ui", op_fdiv_q_ui}, {"alias_cdiv_q_ui", op_cdiv_q_ui},
   {"alias_mul_2exp", op_mul_2exp}, {"alias_tdiv_q_2exp", op_tdiv_q_2exp},
   {"alias_tdiv_r_2exp", op_tdiv_r_2exp}, {"alias_cdiv_q_2exp", op_cdiv_q_2exp}, {"alias_fdiv_q_2exp", op_fdiv_q_2exp},
